@@ -73,7 +73,11 @@ fn main() {
     let mut setup = Report::default();
     props::collect(&prop, &mut blocks, &mut setup);
     if let Some(b) = &only_block {
-        blocks.retain(|x| &x.id == b);
+        match b.strip_suffix('*') {
+            // a trailing '*' selects every block whose id starts with the text before it (profiling aid)
+            Some(prefix) => blocks.retain(|x| x.id.starts_with(prefix)),
+            None => blocks.retain(|x| &x.id == b),
+        }
         if blocks.is_empty() {
             eprintln!("no such block: {b}");
             std::process::exit(2);
